@@ -1,6 +1,7 @@
 package props
 
 import (
+	"regexp"
 	"strings"
 
 	"voicheck/econst"
@@ -8,6 +9,9 @@ import (
 )
 
 // C14 — hash to curve (RFC 9380 §5.3 expand_message, §6.8 suites) structure.
+
+// the strxor scratch buffer: a fresh []byte written by the inner loop (its creation ordinal is irrelevant)
+var xorBufRE = regexp.MustCompile(`havoc@L1\(M<\[\]byte>#\d+\)`)
 
 func c14Specs() []*edt.Spec {
 	const (
@@ -91,13 +95,14 @@ func c14Specs() []*edt.Spec {
 					}
 					if strings.HasPrefix(out, "next-iteration@L0(") {
 						d, dl := dst(e)
-						want := "sel(sumIntoCap-1(Sum(H(" + HN + ", havoc@L1(local), agg([0]=(byte(φL0.1))), " + d + ", " + dl + "))), "
+						want := "sel(sumIntoCap-1(Sum(H(" + HN + ", havoc@L1(xorbuf), agg([0]=(byte(φL0.1))), " + d + ", " + dl + "))), "
 						got := ""
 						for k, f := range p.Final {
 							if strings.HasPrefix(k, "$out[φL0.0:") {
 								got = f.String()
 							}
 						}
+						got = xorBufRE.ReplaceAllString(got, "havoc@L1(xorbuf)")
 						if !strings.HasPrefix(got, want) {
 							return "block b_i must be H(strxor(b_0, b_(i-1)) ‖ I2OSP(i,1) ‖ DST') appended at the running offset: got " + clip(got, 260)
 						}
